@@ -19,7 +19,7 @@ pub fn prop() -> Prop {
                Runs in the verif and release profiles. Non-trivial = input that deserializes to Some(object) (exercises the later stages); distinct = distinct inputs.",
         assumptions: &["x86-64; two build profiles (verif, release)", "allocation-failure aborts would show up as shard deaths"],
         also_release: true, abort_is_violation: true, run, guard,
-        stages: || vec![st("miri", "0,1,2,3", 60, 4, 1800), st("asan", "", 5_000, 4, 1200)],
+        stages: || vec![st("miri", "0,1,2,3", 60, 4, 900), st("asan", "", 5_000, 4, 1200)],
         level_text: "Fault enumeration at run time: hostile hand-built files plus hundreds of thousands (quick) to tens of millions (thorough) of mutated and random inputs pushed through deserialize -> serialize -> link -> load under a panic/abort monitor in two build profiles; thorough adds Miri/ASan stages.",
         level_note: "Sampling; 'never panics' is decided for the inputs generated and the two profiles run.",
         technique: "panic/abort monitor over structure-aware mutation fuzzing of both object formats, two profiles",
